@@ -39,9 +39,13 @@ def generate(rng, tier):
         mt.module_macho(s, "M", prog, base, base_svma, rng, merge=(pi % 3 != 0), seg=(pi % 5 == 0))
         s.add("new U"); s.add("add U M")
         mask = (1 << 48) - 1
-        nsc = 30 if tier == "quick" else 100
+        # every interruption point of every function once (short chains), then random chains
+        forced = [(f, i) for f in prog["funcs"] for i in range(len(f.insns))]
+        nsc = len(forced) + (15 if tier == "quick" else 100)
         for k in range(nsc):
-            sc = mt.make_scenario(rng, prog, base, 0x7ffe0000 + 0x1000 * rng.below(8), rng.range(1, 6))
+            inner_pt = forced[k] if k < len(forced) else None
+            sc = mt.make_scenario(rng, prog, base, 0x7ffe0000 + 0x1000 * rng.below(8),
+                                  rng.range(1, 3) if inner_pt else rng.range(1, 6), inner=inner_pt)
             mid = "S%d" % k
             s.mem(mid, sorted(sc["mem"].items()))
             fr = sc["frames"]
@@ -71,7 +75,12 @@ def generate(rng, tier):
         lo, hi = prog["stubs"]
         hlo, hhi = prog["helper"]
         s.mem("T", [(0x7000 + 8 * i, base + 0x1000 + 0x10 * i) for i in range(32)])
-        for a in list(range(lo, hi, 6 if arch == "x86" else 4))[:6] + list(range(hlo, hhi, 1 if arch == "x86" else 4))[:40]:
+        if arch == "x86":
+            # instruction boundaries of the helper: shared part +0 +7 +9 +0xf, then 10-byte entries at +0 and +5
+            hb = [hlo + o for o in (0, 7, 9, 0xf)] + [hlo + 0x10 + 10 * k + d for k in range((hhi - hlo - 0x10) // 10) for d in (0, 5)]
+        else:
+            hb = list(range(hlo, hhi, 4))
+        for a in list(range(lo, hi, 6 if arch == "x86" else 4))[:6] + hb[:40]:
             sp = 0x7000 + 8 * rng.below(8) if arch == "x86" else 0x7000 + 16 * rng.below(4)
             lr = base + 0x1234
             regs = s.regs_x86(base + a, sp, 0x7100) if arch == "x86" else s.regs_a64(mask, lr, sp, 0x7100)
@@ -90,9 +99,20 @@ def generate(rng, tier):
                 for kind in ("pro", "epi", "both"):
                     sw.add("analyze %s %s %d" % (kind, hexs(b), off), tag="sweep:%s:%s:%s" % (arch, f.shape, kind))
         out.append(("sweep-%s-%d" % (arch, pi), sw))
+    # instruction soup through the hooks (shuffled / truncated prologue and epilogue instructions, wide immediates)
+    from props import C14
+    for name, sc in C14.analysis_stream(rng, tier):
+        if not getattr(sc, "nomodel", False):
+            out.append(("soup-" + name, sc))
     return out
 
 def stub_expect(m):
+    """what the stub / stub-helper INSTRUCTIONS have done to the stack at this address (not what framehop assumes):
+    x86_64 helper: shared part  +0 lea r11,[..] (7 bytes)  +7 push r11 (2)  +9 jmp [..] (6)  +0xf nop ; then
+    10-byte entries  +0 push imm32 (5)  +5 jmp shared (5).  An entry is reached with only the return address on the
+    stack; its push adds one word; the shared push r11 adds a second one.
+    arm64 helper:  +0 adr  +4 nop  +8 stp x16,x17,[sp,#-16]!  +0xc nop  +0x10 ldr  +0x14 br ; 12-byte entries
+    that do not touch sp."""
     a, lo, hi, hlo, hhi = m["stub"]
     sp, arch = m["sp"], m["arch"]
     mem = {0x7000 + 8 * i: m["base"] + 0x1000 + 0x10 * i for i in range(32)}
@@ -101,7 +121,12 @@ def stub_expect(m):
             pops = 0
         else:
             o = a - hlo
-            pops = 1 if o < 7 else (2 if o < 0x10 else (0 if (o - 0x10) % 10 < 5 else 1))
+            if o < 9:
+                pops = 1                      # the entry's push imm32 only (push r11 at +7 has not executed yet)
+            elif o < 0x10:
+                pops = 2
+            else:
+                pops = 0 if (o - 0x10) % 10 < 5 else 1
         return mem[sp + 8 * pops], sp + 8 * pops + 8
     if lo <= a < hi:
         return m["lr"], sp
